@@ -196,6 +196,12 @@ def gen_case(rng):
         return {"kind": "int", "s": gen_string(rng)}
     if r < 0.6:
         return {"kind": "parse", "s": gen_string(rng)}
+    if r < 0.68:
+        # both sources present: an attribute that carries no usable hint and a plain header that does
+        attr = rng.choice([None, {"t": "none"}, {"t": "str", "v": rng.choice(["", " ", "soon", "abc", "-", "nan", "None"])}])
+        return {"kind": "coerce", "attr": attr, "via_response": rng.random() < 0.4,
+                "headers": {"kind": rng.choice(["dict", "mapping", "iterable", "getter", "getter_items"]),
+                            "items": [[NAME, {"t": "str", "v": str(rng.choice([0, 1, 7, 120, rng.randint(0, 10**6)]))}]]}}
     keys = rng.sample(["Retry-After", "retry-after", "RETRY-AFTER", "Retry-after", "X-Other", "retry_after", "Retry-After "], rng.randint(0, 3))
     items = [[k, gen_value(rng) if rng.random() < 0.85 else {"t": "none"}] for k in keys]
     kind = rng.choice(["none", "dict", "dict", "mapping", "getter", "getter_items", "iterable", "raising", "raising_mapping"])
@@ -228,6 +234,74 @@ def oracle(c, o):
     return None
 
 
+def header_oracle(c, o):
+    """a plain decimal Retry-After header is the hint whenever the exception itself carries no usable hint (attribute absent,
+    None, or a string with no digit in it that is not a date)"""
+    if c["kind"] != "coerce" or not isinstance(o, list) or len(o) < 5 or o[0] in ("raised", "bad") or o[2] != "RATE_LIMIT":
+        return None
+    a = c["attr"]
+    unusable = a is None or a["t"] == "none" or (a["t"] == "str" and not any(ch.isdecimal() for ch in a["v"]) and o[4] is None)
+    items = c["headers"].get("items", [])
+    if not unusable or c["headers"]["kind"] not in ("dict", "mapping", "iterable", "getter", "getter_items") or len(items) != 1:
+        return None
+    key, val = items[0]
+    if key != NAME or val["t"] != "str":
+        return None
+    raw = val["v"].strip()
+    if not (raw.isascii() and raw.isdigit() and len(raw) <= 15):
+        return None
+    v = o[1]
+    got = Fraction(v[0], v[1]) if isinstance(v, list) and len(v) == 2 and isinstance(v[0], int) else v
+    if got != int(raw):
+        return (f"exception with retry_after={a and a.get('v')!r} and header Retry-After: {raw!r}: hint {got!r}, expected {int(raw)} "
+                f"(the header is the server's hint)")
+    return None
+
+
+def composition(chk, ok, cases, obs):
+    """the hints the classifier produced are fed to retry_after_or (strategies.py) as the classification's retry_after_s:
+    the delay must lie in [min(hint, remaining), hint + jitter_s] (C18's oracle clause) and equal the model's value"""
+    import importlib
+    c18 = importlib.import_module("props.C18")
+    rng = chk.rng
+    hints = []
+    for c, o in zip(cases, obs):
+        v = o[1] if c["kind"] != "int" and isinstance(o, list) and len(o) > 1 else None
+        # kept to hints on which every float operation of retry_after_or is exact (dyadic, 2**-20 .. 2**20)
+        if isinstance(v, list) and len(v) == 2 and isinstance(v[0], int) and 0 <= Fraction(v[0], v[1]) <= 2**20 and v[1] <= 2**20:
+            hints.append(v)
+    zero = [v for v in hints if v[0] == 0]
+    pick = zero[:60] + [[0, 1]] * 10 + [rng.choice(hints) for _ in range(min(len(hints), 300 if chk.tier == "quick" else 3000))]
+    comp = []
+    for v in pick:
+        h = Fraction(v[0], v[1])
+        j = rng.choice([Fraction(0), Fraction(1, 4), c18.dy(rng), Fraction(2)])
+        fb = rng.choice([c18.dy(rng, 2, 8), h + j + 8, Fraction(0), "nan"])
+        rem = rng.choice([None, None, h + j + c18.dy(rng, 0, 8), h, h / 2, c18.dy(rng)])
+        comp.append({"kind": "retry_after", "ra": c18.fr(h), "jitter": c18.fr(j), "fallback": c18.fr(fb), "remaining": c18.fr(rem),
+                     "r": c18.fr(c18.draw(rng))})
+    o2 = common.run_driver("strategies_driver", comp, jobs=4)
+    bad = [(c, o, m) for c, o in zip(comp, o2) for m in [c18.oracle(c, o)] if m]
+    failing, errors = [], []
+    if ok:
+        lits = [c18.to_gallina(c, o) for c, o in zip(comp, o2)]
+        failing, errors = common.coq_failing(chk.workdir, "racomp", "Base Strategies", "scase", "scase_ok", lits, shard=400,
+                                             extra_defs="From Coq Require Import List. Import ListNotations. Local Open Scope Q_scope.")
+    chk.coverage["composition"] = {"hints_fed_to_retry_after_or": len(comp), "zero_hints": sum(1 for c in comp if c["ra"][0] == 0),
+                                   "compared_in_coq": 0 if errors else len(comp)}
+    if errors:
+        chk.violation({"kind": "correspondence-error", "what": "composition cases file did not evaluate", "errors": errors[:3]}, no_input=True)
+    if bad:
+        c, o, m = min(bad, key=lambda x: len(str(x[0])))
+        chk.violation({"kind": "oracle", "what": "hint not honoured by retry_after_or: " + m, "strategy_case": c, "observed": o,
+                       "driver": "strategies_driver", "also_failing": len(bad)})
+    elif failing:
+        i = failing[0]
+        chk.violation({"kind": "correspondence", "what": "Strategies.scase_ok: retry_after_or on a classifier-produced hint differs from the "
+                       "Coq model (C20_honoured is about the model); the oracle found no violated clause", "strategy_case": comp[i],
+                       "observed": o2[i], "driver": "strategies_driver", "disagreements": len(failing)}, no_input=True)
+
+
 def run(chk):
     chk.assumptions += [
         "email.utils.parsedate_to_datetime raises only TypeError/ValueError/IndexError (trusted; fuzzed here)",
@@ -244,7 +318,7 @@ def run(chk):
               {"kind": "int", "s": "1" * 2150 + "_" + "2" * 2150}, {"kind": "int", "s": "1" * 2151 + "_" + "2" * 2150}]
     cases = corpus + [gen_case(chk.rng) for _ in range(n)]
     obs = common.run_driver("retry_after_driver", cases, jobs=8)
-    bad = [(c, o, m) for c, o in zip(cases, obs) for m in [oracle(c, o)] if m]
+    bad = [(c, o, m) for c, o in zip(cases, obs) for m in [oracle(c, o) or header_oracle(c, o)] if m]
     failing, errors = [], []
     if ok:
         lits = [to_gallina(c, o) for c, o in zip(cases, obs)]
@@ -275,13 +349,22 @@ def run(chk):
                        "of the Retry-After handling, so the theorems of Props/C20.v no longer describe this code; the property oracle "
                        "found no violated clause", "case": cases[i], "observed": obs[i], "driver": "retry_after_driver",
                        "disagreements": len(failing)}, no_input=True)
+    composition(chk, ok, cases, obs)
 
 
 def replay(path):
     import json
     r = json.load(open(path))
+    if "strategy_case" in r:
+        import importlib
+        c18 = importlib.import_module("props.C18")
+        o = common.run_driver("strategies_driver", [r["strategy_case"]])[0]
+        m = c18.oracle(r["strategy_case"], o)
+        print("observed:", o)
+        print("oracle:", m or "holds")
+        return 1 if m else 0
     o = common.run_driver("retry_after_driver", [r["case"]])[0]
-    m = oracle(r["case"], o)
+    m = oracle(r["case"], o) or header_oracle(r["case"], o)
     print("observed:", str(o)[:500])
     print("oracle:", m or "holds")
     return 1 if m else 0
